@@ -46,7 +46,45 @@ pub fn corpus(seed: u64, n: u64) -> Vec<Case> {
             2 => vec![r.usize_below(INJECTORS.len())],
             _ => (0..2 + r.usize_below(3)).map(|_| r.usize_below(INJECTORS.len())).collect(),
         };
+        // services with declared signed-header requirements (any container), satisfied by the request
+        if i % 5 == 1 {
+            cfg.reqs = crate::props::c05::gen_reqs(&mut r).0;
+            l = gen_logical(&mut r, &cfg, &GenOpts::default());
+        }
+        // several request headers under one required prefix, none or some of them signed: which one an error message names
+        // is not fixed by the property, the refusal and its kind are
+        if i % 10 == 3 {
+            cfg.reqs.prefixes = vec![r.pick(&["x-amz-meta", "X-Amz-Meta-", "x-amz-", "x"]).to_string()];
+            cfg.reqs.build = r.below(3) as u8;
+            for name in ["x-amz-meta-a", "x-amz-meta-b", "x-amz-meta-c", "x-amz-meta-zz"] {
+                if !l.extra.iter().any(|(n, _)| n == name) {
+                    l.extra.push((name.to_string(), vec![crate::gen::gen_header_value(&mut r)]));
+                }
+            }
+            l.signed.retain(|n| !n.starts_with("x-amz-meta-") || r.coin());
+        }
         let (mut case, _) = build_case(&l, &cfg, &chosen, &mut r, &mut sp);
+        // a distinctive identity and session per case (a mix-up between validations shows in the digest)
+        crate::props::c15::gen_identity(&mut r, &mut case.script);
+        case.script.session.push((format!("aws:CaseIndex{}", i), crate::model::SessVal::Int(i as i64)));
+        if i % 6 == 5 && !v.is_empty() {
+            // a sibling of the previous case: the same request on the wire under another configuration, clock or provider
+            // answer (validation is a function of all of them — a memo keyed by the request alone would show)
+            let prev: &Case = v.last().unwrap();
+            let mut sib = prev.clone();
+            match r.below(5) {
+                0 => sib.cfg.s3 = !sib.cfg.s3,
+                1 => sib.cfg.fold = !sib.cfg.fold,
+                2 => sib.cfg.now = sib.cfg.now.plus_s(*r.pick(&[901i64, -901, 86_400])),
+                3 => {
+                    sib.script.answer = crate::model::Answer::Derive {
+                        secret: "anotherSecretAltogether0123456789".to_string(),
+                    }
+                }
+                _ => sib.script.answer = crate::model::Answer::Err(crate::defect::gen_errspec(&mut r)),
+            }
+            case = sib;
+        }
         if i % 9 == 8 {
             // hostile: raw byte noise in the URI and a header
             let p = r.usize_below(case.wire.uri.len());
@@ -58,9 +96,31 @@ pub fn corpus(seed: u64, n: u64) -> Vec<Case> {
     v
 }
 
+/// What the property fixes: the outcome, the error kind (code, status) and the returned request, identity and session. The
+/// message text is kept as well, with one allowance: when a header under a required prefix is not signed, *which* of several
+/// such headers the message names follows the header map's iteration order and is not part of the property.
+pub fn digest_of_record(case: &Case, rec: &crate::exec::Record) -> String {
+    let d = match &rec.outcome {
+        crate::exec::Outcome::Err(e) if e.msg.ends_with("' must be a 'SignedHeader' in the AWS Authorization.") => {
+            format!("ERR|{}|{}|{}|'*' must be a 'SignedHeader'", e.kind.name(), e.code, e.status)
+        }
+        // (session data is a hash map: compared with what this case's provider handed out, not rendered)
+        crate::exec::Outcome::Ok(o) => format!(
+            "{}|session {}",
+            rec.outcome.digest(),
+            if o.session == crate::exec::build_session(&case.script.session) {
+                "as provided"
+            } else {
+                "NOT the one provided for this case"
+            }
+        ),
+        _ => rec.outcome.digest(),
+    };
+    format!("{}|{:?}", d, rec.events)
+}
+
 pub fn digest_of(case: &Case) -> String {
-    let rec = execute(case);
-    format!("{}|{:?}", rec.outcome.digest(), rec.events)
+    digest_of_record(case, &execute(case))
 }
 
 pub fn sequential_digests(corpus: &[Case]) -> Vec<u64> {
@@ -162,7 +222,24 @@ pub fn sub_cold(seed: u64, n: u64, threads: usize) -> i32 {
 
 pub fn sub_digest(seed: u64, n: u64) -> i32 {
     let c = corpus(seed, n);
-    let seq = sequential_digests(&c);
+    // the order in which a process meets the cases must not matter either (state fixed by the first validation of a
+    // process): VERIF_C18_ORDER = reversed | shuffled; VERIF_C18_LOG = 1 installs a logger at Trace first
+    if std::env::var("VERIF_C18_LOG").is_ok() {
+        crate::exec::install_logger(log::LevelFilter::Trace);
+    }
+    let mut order: Vec<usize> = (0..c.len()).collect();
+    match std::env::var("VERIF_C18_ORDER").as_deref() {
+        Ok("reversed") => order.reverse(),
+        Ok("shuffled") => {
+            let mut r = Rng::keyed(seed ^ std::process::id() as u64, "C18", "order", 0, 0);
+            r.shuffle(&mut order);
+        }
+        _ => {}
+    }
+    let mut seq = vec![0u64; c.len()];
+    for i in order {
+        seq[i] = crate::prng::fnv64(digest_of(&c[i]).as_bytes());
+    }
     let mut h = crate::sha::Sha256::new();
     for d in &seq {
         h.update(&d.to_le_bytes());
@@ -196,8 +273,17 @@ pub fn sub_threads(seed: u64, n: u64, threads: usize, rounds: usize) -> i32 {
 }
 
 fn child_output(args: &[String]) -> Result<String, String> {
+    child_output_env(args, &[])
+}
+
+fn child_output_env(args: &[String], envs: &[(&str, &str)]) -> Result<String, String> {
     let exe = std::env::current_exe().map_err(|e| e.to_string())?;
-    let o = std::process::Command::new(exe).args(args).output().map_err(|e| e.to_string())?;
+    let mut cmd = std::process::Command::new(exe);
+    cmd.args(args);
+    for (k, v) in envs {
+        cmd.env(k, v);
+    }
+    let o = cmd.output().map_err(|e| e.to_string())?;
     if !o.status.success() {
         return Err(format!("child {:?} failed: {:?} {}", args, o.status, String::from_utf8_lossy(&o.stderr)));
     }
@@ -242,6 +328,67 @@ pub fn run(tier: Tier) -> i32 {
         }
     }
     t.count("sequential_repetition_passes");
+    // (i') the same with a Trace-level logger installed and capturing on this thread: outcomes must not depend on it
+    crate::exec::install_logger(log::LevelFilter::Trace);
+    crate::exec::capture_logs(true);
+    let mut records = 0usize;
+    for (i, case) in c.iter().enumerate().take(tier.n(2000, 20_000) as usize) {
+        t.eval();
+        let d = crate::prng::fnv64(digest_of(case).as_bytes());
+        records += crate::exec::take_logs().len();
+        if d != reference[i] {
+            viol(&mut t, "logging", format!("case {} gave a different outcome with a trace-level logger installed: {}", i, digest_of(case)), Some(case));
+            break;
+        }
+    }
+    crate::exec::capture_logs(false);
+    log::set_max_level(log::LevelFilter::Off);
+    t.add("log_records_during_logging_pass", records as u64);
+    // (i'') several validations in flight at once, each suspended at its key provider: polled in turn on this thread, or
+    // polled once here and finished by another thread (what an async runtime does to them)
+    let groups = tier.n(400, 6000) as usize;
+    for g in 0..groups.min(c.len() / 3) {
+        let mut trio: Vec<Case> = c[3 * g..3 * g + 3].to_vec();
+        for (k, case) in trio.iter_mut().enumerate() {
+            case.script.ready_pending = 1 + ((g + k) % 2) as u8;
+            case.script.ans_pending = 1 + ((g + k) % 3) as u8;
+        }
+        let want: Vec<String> = trio.iter().map(digest_of).collect();
+        let migrate = g % 2 == 1;
+        let got = crate::exec::execute_interleaved(&trio, migrate);
+        for (k, res) in got.into_iter().enumerate() {
+            t.eval();
+            let Some((outcome, events)) = res else {
+                continue;
+            };
+            let rec = crate::exec::Record {
+                outcome,
+                events,
+                polls: 0,
+                submitted: None,
+                view: None,
+            };
+            let d = digest_of_record(&trio[k], &rec);
+            if d != want[k] {
+                viol(
+                    &mut t,
+                    if migrate {
+                        "interleaved-migrated"
+                    } else {
+                        "interleaved"
+                    },
+                    format!("validation suspended at its provider and interleaved with two others{}: {} — alone: {}", if migrate { ", finished on another thread" } else { "" }, crate::run::truncate(&d, 300), crate::run::truncate(&want[k], 300)),
+                    Some(&trio[k]),
+                );
+                break;
+            }
+            t.count(if migrate {
+                "interleaved_and_migrated_validations_agree"
+            } else {
+                "interleaved_validations_agree"
+            });
+        }
+    }
     // (ii) threads on a small hot set (collisions on the same regex pools) and on the full corpus
     let hot: Vec<Case> = c.iter().take(24).cloned().collect();
     let hot_ref: Vec<u64> = reference.iter().take(24).copied().collect();
@@ -320,10 +467,19 @@ pub fn run(tier: Tier) -> i32 {
         }
         crate::sha::hex(&h.finish())
     };
+    // children meet the cases in forward, reversed and shuffled order; every other one runs with a logger installed at Trace
+    // (log arguments are then evaluated: Debug renderings that walk hash maps, code behind log_enabled!)
     let handles: Vec<_> = (0..n_proc)
-        .map(|_| {
+        .map(|k| {
             let args = vec!["sub".to_string(), "c18-digest".to_string(), seed.to_string(), "2000".to_string()];
-            std::thread::spawn(move || child_output(&args))
+            std::thread::spawn(move || {
+                let order = ["forward", "reversed", "shuffled"][(k % 3) as usize];
+                if k % 2 == 1 {
+                    child_output_env(&args, &[("VERIF_C18_ORDER", order), ("VERIF_C18_LOG", "1")])
+                } else {
+                    child_output_env(&args, &[("VERIF_C18_ORDER", order)])
+                }
+            })
         })
         .collect();
     for h in handles {
@@ -350,6 +506,9 @@ pub fn run(tier: Tier) -> i32 {
     for th in [2, 4, 8, 16] {
         ctx.gate(&format!("max validations in flight with {} threads", th), t.get(&format!("max_in_flight/{}", th)), 2);
     }
+    ctx.gate("validations suspended at the provider and interleaved on one thread, same outcome as alone", t.get("interleaved_validations_agree"), tier.n(500, 8000));
+    ctx.gate("validations suspended at the provider and finished on another thread, same outcome as alone", t.get("interleaved_and_migrated_validations_agree"), tier.n(500, 8000));
+    ctx.gate("log records produced during the pass with a trace-level logger (outcomes unchanged)", t.get("log_records_during_logging_pass"), tier.n(2000, 20_000));
     ctx.gate("cold-start processes run", t.get("cold_start_processes"), n_cold);
     ctx.gate("cold starts in which ≥ 2 threads overlapped inside their first validation", t.get("cold_starts_with_overlapping_first_calls"), tier.n(6, 60));
     ctx.gate("fresh processes agreeing on the corpus digest", t.get("fresh_processes_agreeing"), n_proc);
@@ -359,7 +518,7 @@ pub fn run(tier: Tier) -> i32 {
     }
     let rep = Report {
         level: "exploration",
-        rule: "Outcome comparator: a mixed corpus (accepted, 1–4 defects, hostile noise; both carriers, all options) is validated single-threaded to obtain reference digests (Ok/error kind + message + returned parts/body/principal + provider event log); the same cases are then re-validated (i) twice in shuffled order, (ii) from 2/4/8/16 threads released by a barrier, each in its own permutation, on a 24-case hot set (many rounds) and on the full corpus, (iii) in fresh processes whose *first* validations happen on 16 threads at once (lazy statics and regex pools initialised under contention), (iv) in fresh processes sequentially (different HashMap seeds); thorough adds (v) the thread workload under ThreadSanitizer (-Zbuild-std) and under Miri with several scheduler seeds. Interleaving evidence is measured: global start/end sequence numbers give max in flight and overlapping first-call pairs. Distinct = distinct (case, mode) comparisons that agreed.".into(),
+        rule: "Outcome comparator: a mixed corpus (accepted, 1–4 defects, hostile noise; both carriers, all options; services with signed-header requirements in every container; several unsigned headers under one required prefix; a distinctive identity and session per case; sibling cases that put the *same* wire request under another option set, clock or provider answer) is validated single-threaded to obtain reference digests (Ok/error kind, code, status + message + returned parts/body/principal/session + provider event log; the one thing left out is *which* of several unsigned prefixed headers a refusal message names); the same cases are then re-validated (i) twice in shuffled order, (i') with a trace-level logger installed and capturing, (i'') three at a time, each suspended at its key provider and polled in turn on one thread or finished by another thread, (ii) from 2/4/8/16 threads released by a barrier, each in its own permutation, on a 24-case hot set (many rounds) and on the full corpus, (iii) in fresh processes whose *first* validations happen on 16 threads at once (lazy statics and regex pools initialised under contention), (iv) in fresh processes sequentially (different HashMap seeds), meeting the cases in forward, reversed or shuffled order, every other one with a logger at Trace; thorough adds (v) the thread workload under ThreadSanitizer (-Zbuild-std) and under Miri with several scheduler seeds. Interleaving evidence is measured: global start/end sequence numbers give max in flight and overlapping first-call pairs. Distinct = distinct (case, mode) comparisons that agreed.".into(),
         assumptions: vec!["interleavings are sampled, not enumerated; no delay can be injected inside lazy_static/regex without patching dependencies".into()],
         extra: J::obj().set("calibrated_vectors", J::i(pre.unwrap_or(0) as i64)).set("sanitizers", san),
     };
